@@ -58,6 +58,14 @@ type CancelCase struct {
 	// disconnect. Text: application/grpc-web-text.
 	Framing string `json:"framing,omitempty"` // "" | chunked-together | chunked-later | chunked-never
 	Text    bool   `json:"text,omitempty"`
+	// Gzip: the request messages are gzip-compressed (Content-Encoding for
+	// HTTP transcoding, grpc-encoding + compressed frames for gRPC-web).
+	Gzip bool `json:"gzip,omitempty"`
+	// State "burst-recv" (cs, bidi): the client sends Burst complete messages
+	// the handler has not read yet, then cancels; the handler waits for
+	// ctx.Done() and only then calls Recv repeatedly. How "deadline": instead
+	// of a cancel the call's own grpc-timeout (300m) expires.
+	Burst int `json:"burst,omitempty"`
 }
 
 func (c *CancelCase) class() string {
@@ -77,6 +85,12 @@ func (c *CancelCase) class() string {
 	}
 	if c.Text {
 		t = "+text" + t
+	}
+	if c.Gzip {
+		t = "+gzip" + t
+	}
+	if c.How == "deadline" {
+		t = "+deadline-expires" + t
 	}
 	p := ""
 	if c.Target != "" {
@@ -295,7 +309,7 @@ func (s *cancelSvc) stream(md protoreflect.MethodDescriptor, ss grpc.ServerStrea
 					return err
 				}
 			}
-			if sst && (!seq || pass == 1) && !(h1 && cs && (c.State == "in-recv" || c.State == "between-recv")) {
+			if sst && (!seq || pass == 1) && !(h1 && cs && (c.State == "in-recv" || c.State == "between-recv" || c.State == "burst-recv")) {
 				if c.Framing == "chunked-never" {
 					sc.log.log("setup-send-enter", nil, i)
 				}
@@ -351,6 +365,17 @@ func (s *cancelSvc) stream(md protoreflect.MethodDescriptor, ss grpc.ServerStrea
 		}
 	case "in-recv":
 		recv()
+	case "burst-recv":
+		// unread complete messages are waiting; the handler looks at its
+		// context first and receives only once that is done
+		sc.log.log("idle", nil, 0)
+		sc.awaitCtx(ctx)
+		for i := 0; i < c.Burst+2; i++ {
+			if recv() != nil {
+				break
+			}
+		}
+		return errScenarioEnd
 	case "in-send":
 		big := chunkOfSize(c.BigSize)
 		blocked := false
@@ -448,6 +473,8 @@ func plan(c *CancelCase) (n int, halfClose, partial bool) {
 		return 0, c.HalfClose, false
 	case "in-recv":
 		return c.K, false, true
+	case "burst-recv":
+		return c.K + c.Burst, false, false
 	}
 	return c.K, c.HalfClose, false
 }
@@ -516,7 +543,9 @@ func (s *cancelSvc) startH2C(sc *cscn, srv *wire.Server) (*cancelClient, error) 
 	} else {
 		req.Header.Set("Content-Type", "application/grpc")
 		req.Header.Set("Te", "trailers")
-		if c.Timeout {
+		if c.How == "deadline" {
+			req.Header.Set("Grpc-Timeout", "300m")
+		} else if c.Timeout {
 			req.Header.Set("Grpc-Timeout", "3600S")
 		}
 	}
@@ -549,6 +578,8 @@ func (s *cancelSvc) startH2C(sc *cscn, srv *wire.Server) (*cancelClient, error) 
 	cl := &cancelClient{}
 	cl.cancel = func() {
 		switch {
+		case c.How == "deadline":
+			time.Sleep(400 * time.Millisecond) // the call's own deadline passes
 		case c.How == "pipe" && pw != nil && !half:
 			pw.CloseWithError(errors.New("client aborts the request body"))
 		case c.How == "resp-close":
@@ -610,11 +641,17 @@ func (s *cancelSvc) buildH1(c *CancelCase, id string, ref bool) h1Req {
 		if isHTTP {
 			return jsonOfSize(c.MsgSize)
 		}
+		if c.Gzip {
+			return wire.Frame(wire.Gzip(mustMarshal(chunkOfSize(c.MsgSize))), true)
+		}
 		return wire.Frame(mustMarshal(chunkOfSize(c.MsgSize)), false)
 	}
 	var body []byte
 	for i := 0; i < n; i++ {
 		body = append(body, one()...)
+	}
+	if c.Gzip && isHTTP && len(body) > 0 {
+		body = wire.Gzip(body) // Content-Encoding: gzip, one member
 	}
 	if c.Text && !isHTTP {
 		body = []byte(base64.StdEncoding.EncodeToString(body))
@@ -648,6 +685,13 @@ func (s *cancelSvc) buildH1(c *CancelCase, id string, ref bool) h1Req {
 		fmt.Fprintf(&sb, "%s %s HTTP/1.1\r\nHost: verif.test\r\nX-Scn: %s\r\n", verb, path, id)
 	}
 	chunked := c.Framing != "" && verb != "GET"
+	if c.Gzip && verb != "GET" && !ref {
+		if isHTTP {
+			sb.WriteString("Content-Encoding: gzip\r\n")
+		} else {
+			sb.WriteString("Grpc-Encoding: gzip\r\n")
+		}
+	}
 	if verb != "GET" {
 		fmt.Fprintf(&sb, "Content-Type: %s\r\n", ct)
 		if chunked {
@@ -656,7 +700,9 @@ func (s *cancelSvc) buildH1(c *CancelCase, id string, ref bool) h1Req {
 			fmt.Fprintf(&sb, "Content-Length: %d\r\n", cl)
 		}
 	}
-	if c.Timeout && !isHTTP {
+	if c.How == "deadline" && !isHTTP {
+		sb.WriteString("Grpc-Timeout: 300m\r\n")
+	} else if c.Timeout && !isHTTP {
 		sb.WriteString("Grpc-Timeout: 3600S\r\n")
 	}
 	sb.WriteString("\r\n")
@@ -702,6 +748,10 @@ func (s *cancelSvc) dialH1(c *CancelCase, srv *wire.Server, q h1Req) (*cancelCli
 	}
 	return &cancelClient{
 		cancel: func() {
+			if c.How == "deadline" {
+				time.Sleep(400 * time.Millisecond) // the call's own deadline passes
+				return
+			}
 			if c.How == "tcp-rst" {
 				if tc, ok := conn.(*net.TCPConn); ok {
 					tc.SetLinger(0)
@@ -853,7 +903,7 @@ func (s *cancelSvc) runScenario(c *CancelCase, onSlow func()) *cancelOutcome {
 		switch c.State {
 		case "pre-recv":
 			return index(ev, "entered", 0) >= 0
-		case "ctx-wait", "between-recv", "between-send":
+		case "ctx-wait", "between-recv", "between-send", "burst-recv":
 			return index(ev, "idle", 0) >= 0
 		case "in-recv":
 			at := 0
@@ -925,6 +975,9 @@ func (s *cancelSvc) runScenario(c *CancelCase, onSlow func()) *cancelOutcome {
 	// goroutine has returned from ServeHTTP.
 	done := func(ev []event) bool {
 		h := index(ev, "ctx-done", 0) >= 0 || index(ev, "handler-exit", 0) >= 0
+		if c.State == "burst-recv" {
+			h = index(ev, "handler-exit", 0) >= 0 // after its receives
+		}
 		if !proxy {
 			return h
 		}
@@ -1009,7 +1062,7 @@ func (s *cancelSvc) runScenario(c *CancelCase, onSlow func()) *cancelOutcome {
 		}
 		if told && within {
 			add("not-released:"+missing, fmt.Sprintf("net/http cancelled the request context (%s) but after %v the handler is still not released (%s; blocked below a larking frame: %v)", ev[iReq].Err, releaseWatchdog, missing, blockedIn))
-		} else if c.Framing != "" && !c.repliesFlushed() {
+		} else if c.Framing != "" && !c.repliesFlushed() && !(c.Transport == "h1-http" && (c.Shape == "unary" || c.Shape == "ss")) {
 			// whether net/http has seen the end of a chunked body when the
 			// handler stopped reading depends on how the bytes were read: it
 			// may legitimately not watch the connection (observation only)
@@ -1043,6 +1096,18 @@ func (s *cancelSvc) runScenario(c *CancelCase, onSlow func()) *cancelOutcome {
 				add("released-without-error:"+what, fmt.Sprintf("%s returned nil after the client's cancel although the client had sent nothing more", what))
 			}
 			return
+		}
+	}
+	if c.State == "burst-recv" {
+		// once the handler has seen its context done, no Recv may deliver
+		n := 0
+		for i := index(ev, "ctx-done", 0); i >= 0 && i < len(ev); i++ {
+			if ev[i].Name == "recv-return" && ev[i].err == nil {
+				n++
+			}
+		}
+		if n > 0 {
+			add("recv-delivers-after-cancel", fmt.Sprintf("after the handler had observed ctx.Done() (%s), RecvMsg still returned %d of the %d buffered messages with a nil error instead of failing", map[bool]string{true: "grpc-timeout expired", false: "client cancelled"}[c.How == "deadline"], n, c.Burst))
 		}
 	}
 	switch c.State {
@@ -1100,6 +1165,32 @@ func applicable(t, sh, st string) bool {
 
 func (c *CancelCase) normalise() {
 	h1 := strings.HasPrefix(c.Transport, "h1")
+	// burst-recv: where a Recv after the end of the call is defined to fail
+	// (the gRPC paths; HTTP transcoding has no such rule) and where the end
+	// of the call can reach the handler while unread messages are buffered
+	// (HTTP/2 cancel; over HTTP/1 net/http does not watch a connection with an
+	// unread body, so only the call's own deadline ends it there)
+	if c.State == "burst-recv" {
+		ok := (c.Shape == "cs" || c.Shape == "bidi") && c.Target == "" &&
+			(c.Transport == "grpcgo" || c.Transport == "h2c-grpc" || (c.Transport == "h1-web" && c.How == "deadline"))
+		if !ok {
+			c.State = "between-recv"
+		} else if c.Burst <= 0 {
+			c.Burst = 5
+		}
+	}
+	deadline := c.How == "deadline" && c.State == "burst-recv" && c.Transport != "grpcgo"
+	if c.How == "deadline" && !deadline {
+		c.How = "ctx"
+	}
+	if c.State != "burst-recv" {
+		c.Burst = 0
+	} else {
+		c.HalfClose = false
+	}
+	if c.How == "resp-close" && c.State == "burst-recv" {
+		c.How = "ctx"
+	}
 	if c.Transport == "grpcgo" || h1 {
 		if c.How == "pipe" || c.How == "resp-close" {
 			c.How = "ctx"
@@ -1109,7 +1200,7 @@ func (c *CancelCase) normalise() {
 		c.How = "ctx" // no response has been started in these cells
 	}
 	if h1 {
-		if c.How != "tcp-rst" {
+		if c.How != "tcp-rst" && !deadline {
 			c.How = "tcp"
 		}
 		// over HTTP/1 net/http only watches the connection once the request
@@ -1149,7 +1240,18 @@ func (c *CancelCase) normalise() {
 		c.HalfClose = false
 	}
 	if !h1 || c.Target != "" || c.Get || !(c.State == "ctx-wait" || c.State == "between-send" || c.State == "in-send") {
-		c.Framing, c.Text = "", false
+		c.Framing, c.Text, c.Gzip = "", false, false
+	}
+	if c.Text {
+		c.Gzip = false
+	}
+	if c.Gzip && c.Transport == "h1-web" && c.State == "in-send" {
+		c.Gzip = false // replies would be compressed as well and never fill the window
+	}
+	if c.Gzip && c.Transport == "h1-http" && c.Framing == "chunked-never" {
+		// a gzip request body is read to its end (a further member may
+		// follow): without the last-chunk no message is delivered at all
+		c.Framing = "chunked-later"
 	}
 	if c.Transport != "h1-web" {
 		c.Text = false
@@ -1198,6 +1300,11 @@ func (c *CancelCase) normalise() {
 	if c.HalfClose && c.K == 0 && strings.HasSuffix(c.Transport, "-http") {
 		c.K = 1 // an empty transcoded body still delivers one message built from the URL
 	}
+	if c.Gzip {
+		if n, _, _ := plan(c); n == 0 {
+			c.Gzip = false // nothing to compress
+		}
+	}
 }
 
 // repliesFlushed: the handler has written (and flushed) at least one reply
@@ -1222,22 +1329,39 @@ func framingCells() []CancelCase {
 			ks = []int{0, c.K}
 		}
 		for _, k := range ks {
-			for _, text := range []bool{false, true} {
-				if text && c.Transport != "h1-web" {
+			for _, enc := range []string{"", "text", "gzip"} {
+				if enc == "text" && c.Transport != "h1-web" {
 					continue
 				}
 				for _, f := range []string{"", "chunked-together", "chunked-later", "chunked-never"} {
-					if f == "" && !text && k == c.K {
+					if f == "" && enc == "" && k == c.K {
 						continue // base matrix
 					}
 					d := c
-					d.K, d.Text, d.Framing = k, text, f
+					d.K, d.Text, d.Gzip, d.Framing = k, enc == "text", enc == "gzip", f
 					d.normalise()
-					if d.Framing != f {
+					if d.Framing != f || d.Gzip != (enc == "gzip") {
 						continue // not applicable to this cell
 					}
 					out = append(out, d)
 				}
+			}
+		}
+	}
+	return out
+}
+
+// burstCells: unread complete messages are buffered at the server when the
+// call ends; a Recv made after the handler has seen ctx.Done() must fail.
+func burstCells() []CancelCase {
+	var out []CancelCase
+	for _, t := range []struct{ transport, how string }{{"grpcgo", "ctx"}, {"h2c-grpc", "ctx"}, {"h2c-grpc", "pipe"}, {"h2c-grpc", "deadline"}, {"h1-web", "deadline"}} {
+		for _, sh := range []string{"cs", "bidi"} {
+			for _, timeout := range []bool{false, true} {
+				if timeout && t.how == "deadline" {
+					continue
+				}
+				out = append(out, CancelCase{Part: "cancel", Transport: t.transport, Shape: sh, State: "burst-recv", K: 1, Burst: 5, MsgSize: 5, BigSize: 256 << 10, MaxBig: 384, How: t.how, Timeout: timeout, DelayUS: 20000})
 			}
 		}
 	}
@@ -1302,6 +1426,7 @@ func runCancels(r *mon.Run) {
 		}
 	}
 	cases = append(cases, framingCells()...)
+	cases = append(cases, burstCells()...)
 	nLocal := len(cases)
 	cases = append(cases, proxyMatrix()...)
 	// every cell under the all-off and the all-on option mask plus, in
@@ -1336,6 +1461,13 @@ func runCancels(r *mon.Run) {
 		c.HalfClose = rng.Intn(4) == 0
 		c.Framing = []string{"", "", "chunked-together", "chunked-later", "chunked-never"}[rng.Intn(5)]
 		c.Text = rng.Intn(3) == 0
+		c.Gzip = rng.Intn(4) == 0
+		if (c.Shape == "cs" || c.Shape == "bidi") && rng.Intn(8) == 0 {
+			c.State, c.Burst = "burst-recv", 1+rng.Intn(8)
+			if rng.Intn(3) == 0 {
+				c.How = "deadline"
+			}
+		}
 		c.K = rng.Intn(5)
 		c.MsgSize = sizes[rng.Intn(len(sizes))]
 		c.Timeout = rng.Intn(3) == 0
